@@ -779,6 +779,7 @@ func runC11(c *Ctx) {
 	runC11CloseUnblocks(c)
 	runC11NullIntoPointer(c)
 	runC11HalfGuard(c)
+	runC11CollectIndex(c)
 
 	// ---------------------------------------------------------------- C11.10
 	c.Rule("C11.10", "a declared content length is non-negative or the -1 sentinel", 1)
@@ -832,6 +833,12 @@ func runC11(c *Ctx) {
 				}
 				if rethrow {
 					c.OK("C11.3", FuncName(fn), "re-panic", x.Pos(), "re-raises the value it recovered (the handler's own panic continues to net/http)")
+					return
+				}
+				// a panic without a source position is not written in the source: go/ssa's lowering
+				// of range-over-func (`for x := range slices.Backward(s)`) guards the iterator
+				// protocol with such instructions (false alarm on refactoring B24_r5)
+				if x.Pos() == token.NoPos {
 					return
 				}
 				nPanic++
@@ -1619,5 +1626,169 @@ func runC11HalfGuard(c *Ctx) {
 	}
 	if n == 0 {
 		c.Bad("C11.16", "package", "message-guard-excludes-maps", token.NoPos, "no guarded use of an accessor result as a message found: shape changed")
+	}
+}
+
+// runC11CollectIndex: C11.17 (seed C11n).  The 'filter and collect' loop written with an explicit
+// cursor - `out := make([]T, n); k := 0; for ... { if keep { out[k] = x; k++ } }` - is in range
+// only if n is at least the number of iterations: the cursor can advance once per iteration,
+// whatever is known about how many items CAN match (a client may repeat `gzip` in
+// Accept-Encoding as often as it likes; "the intersection is never larger than the smaller set"
+// holds for sets, not for token lists).  For every store into a slice made in the same function
+// whose index is such a cursor (a loop-header phi that starts at a constant and is stepped by one
+// on some back edges and left alone on others - the induction variable itself is C11.11's business): the made length is the loop's own bound (the value the induction variable
+// is compared with), or a dominating test proves cursor < length.  Other index shapes are left to
+// C11.1 / C11.14.
+func runC11CollectIndex(c *Ctx) {
+	p := c.P
+	c.Rule("C11.17", "a cursor that fills a pre-sized slice inside a loop cannot pass the slice's length", 0)
+	sameVal := func(a, b ssa.Value) bool {
+		a, b = strip(a), strip(b)
+		if a == b {
+			return true
+		}
+		ca, okA := a.(*ssa.Call)
+		cb, okB := b.(*ssa.Call)
+		if okA && okB && CalleeName(ca) == "builtin len" && CalleeName(cb) == "builtin len" {
+			return strip(ca.Call.Args[0]) == strip(cb.Call.Args[0])
+		}
+		ka, okA2 := a.(*ssa.Const)
+		kb, okB2 := b.(*ssa.Const)
+		if okA2 && okB2 && ka.Value != nil && kb.Value != nil {
+			return ka.Value.ExactString() == kb.Value.ExactString()
+		}
+		return false
+	}
+	n := 0
+	for _, fn := range p.Funcs {
+		if !p.inScope(fn) || len(fn.Blocks) == 0 {
+			continue
+		}
+		var loops map[*ssa.BasicBlock]map[*ssa.BasicBlock]bool
+		ForEachInstr(fn, func(in ssa.Instruction) {
+			st, ok := in.(*ssa.Store)
+			if !ok {
+				return
+			}
+			ia, ok := st.Addr.(*ssa.IndexAddr)
+			if !ok {
+				return
+			}
+			mk, ok := strip(ia.X).(*ssa.MakeSlice)
+			if !ok {
+				return
+			}
+			cur, ok := ia.Index.(*ssa.Phi)
+			if !ok {
+				return
+			}
+			if loops == nil {
+				loops = naturalLoops(fn)
+			}
+			h := cur.Block()
+			body := loops[h]
+			if body == nil || !body[st.Block()] {
+				return
+			}
+			// cursor shape: entry edges constant, back edges (through phis of the body) cur or cur+1
+			stepped := false
+			unstepped := false // some iteration leaves the cursor alone: a cursor, not the induction variable
+			shape := true
+			var walk func(v ssa.Value, depth int)
+			seen := map[ssa.Value]bool{}
+			walk = func(v ssa.Value, depth int) {
+				if seen[v] || depth > 6 {
+					return
+				}
+				seen[v] = true
+				switch x := v.(type) {
+				case *ssa.Phi:
+					if x == cur {
+						unstepped = true
+						return
+					}
+					if !body[x.Block()] {
+						shape = false
+						return
+					}
+					for _, e := range x.Edges {
+						walk(e, depth+1)
+					}
+				case *ssa.BinOp:
+					k, isK := x.Y.(*ssa.Const)
+					if x.Op == token.ADD && x.X == ssa.Value(cur) && isK && k.Value != nil && k.Value.ExactString() == "1" {
+						stepped = true
+						return
+					}
+					shape = false
+				default:
+					shape = false
+				}
+			}
+			for i, e := range cur.Edges {
+				if body[h.Preds[i]] {
+					walk(e, 0)
+				} else if _, isK := e.(*ssa.Const); !isK {
+					shape = false
+				}
+			}
+			if !shape || !stepped || !unstepped {
+				return
+			}
+			n++
+			// (a) a dominating test proves cursor < length
+			for _, f := range FactsAt(st.Block()) {
+				if cmp, ok := f.AsCmp(); ok && cmp.Op == token.LSS && cmp.X == ssa.Value(cur) {
+					if sameVal(cmp.Y, mk.Len) {
+						c.OK("C11.17", FuncName(fn), "cursor-within-made-length", st.Pos(), "a dominating test proves the cursor is below the made length")
+						return
+					}
+					if lc, ok := strip(cmp.Y).(*ssa.Call); ok && CalleeName(lc) == "builtin len" && strip(lc.Call.Args[0]) == ssa.Value(mk) {
+						c.OK("C11.17", FuncName(fn), "cursor-within-made-length", st.Pos(), "a dominating test proves the cursor is below len of the slice")
+						return
+					}
+				}
+			}
+			// (b) the made length is the loop's own bound
+			bounded := false
+			for b := range body {
+				if len(b.Instrs) == 0 {
+					continue
+				}
+				iff, ok := b.Instrs[len(b.Instrs)-1].(*ssa.If)
+				if !ok {
+					continue
+				}
+				cmp, ok := iff.Cond.(*ssa.BinOp)
+				if !ok || cmp.Op != token.LSS {
+					continue
+				}
+				// X is an induction value of this loop: a header phi stepped by one on every back edge, or that +1
+				x := cmp.X
+				if bo, ok := x.(*ssa.BinOp); ok && bo.Op == token.ADD {
+					x = bo.X
+				}
+				ph, ok := x.(*ssa.Phi)
+				if !ok || ph.Block() != h || ph == cur {
+					continue
+				}
+				// one of the successors must leave the loop
+				leaves := false
+				for _, s := range b.Succs {
+					if !body[s] {
+						leaves = true
+					}
+				}
+				if leaves && sameVal(cmp.Y, mk.Len) {
+					bounded = true
+				}
+			}
+			c.Check(bounded, "C11.17", FuncName(fn), "cursor-within-made-length", st.Pos(),
+				"the slice was made with the loop's own bound as its length: one store per iteration fits",
+				"the cursor advances up to once per iteration, but the slice was not made with the loop's bound as its length and no test keeps the cursor below it: enough matching items (repeated tokens in a peer's header) index past the end and ServeHTTP panics")
+		})
+	}
+	if n == 0 {
+		c.Trivial("C11.17", "*", "cursor-within-made-length", token.NoPos, "no pre-sized slice is filled through a cursor inside a loop (the collect loops append)")
 	}
 }
